@@ -169,7 +169,7 @@ def configs(tier: str, prop: str) -> list[dict[str, Any]]:
     if prop == "C13":
         nseeds = 6 if quick else 48
     else:
-        nseeds = 4 if quick else 48
+        nseeds = 3 if quick else 48
     for s in range(nseeds):
         # quick: the empty-seed branch of requestSeed is explored on the hand-built and grid models only
         out.append({"kind": "rng", "name": f"default/{s}", "seed": s, "params": {}, "entropies": [0] if quick else [0, 1], "wide": not quick})
@@ -199,7 +199,9 @@ def configs(tier: str, prop: str) -> list[dict[str, Any]]:
     gseeds = (0,) if quick else tuple(range(4))
     for name, params in grid:
         for s in gseeds:
-            out.append({"kind": "rng", "name": f"{name}/{s}", "seed": s, "params": params, "entropies": [0, 1], "wide": not quick})
+            # C14 quick: the empty-seed branch of requestSeed is explored on the hand-built models only
+            ent = [0] if (quick and prop != "C13") else [0, 1]
+            out.append({"kind": "rng", "name": f"{name}/{s}", "seed": s, "params": params, "entropies": ent, "wide": not quick})
     return out
 
 
